@@ -610,7 +610,8 @@ class SimKernel:
         # the kernel zero-fills the part of bpf_attr user space left out
         attr = bytearray(raw) + bytes(max(0, ATTR_SIZE - len(raw)))
         handler = self._commands.get(cmd)
-        if handler is None:
+        if handler is None or cmd in getattr(self, "refused_commands", ()):
+            # (refused_commands: an older kernel that does not know the command yet)
             raise oserror(errno.EINVAL)
         self._count("cmd." + CMD_NAMES[cmd])
         self._reap()
